@@ -23,6 +23,10 @@ the model with the committed repairs, which is the variant the behavioural probe
 | "Reading a corpus file and writing it back never merges, splits or drops tests, whatever delimiter lengths and suffixes it uses" | `roundtrip_suffixed` / `parse_write_roundtrip_partial` / `roundtrip_built` (every list of `SimpleS` corrections, all delimiter lengths ≥ 3, every admissible suffix: one entry per correction, in order, same name / attribute text / flags / input / delimiter lengths / expectation read back); `splitIncl_flatten` (reading loses no bytes); exactness witnesses `roundtrip_fails_delimiter_in_input`, `roundtrip_fails_equal_dash_in_output`, `roundtrip_fails_own_suffix_in_input`, `roundtrip_fails_equals_line_unsuffixed`, `roundtrip_fails_untrimmed_name` | proved for WRITTEN files (`parse (write cs)`); "read then write then read" for an arbitrary file `f` follows only when `(parse f)`'s entries satisfy `SimpleS` — that is a hypothesis on `f`, measured per run through the correspondence of `parseFile` with the real `parse_tests` and the judge's `classify`.  Delimiter lengths < 3 are not delimiters. |
 | (implicit) the Ok/Err result, directory runs, `strip_sexp_fields` | `updateStatus`, directory mode, `stripSexpFields` — modelled and corresponded, no theorem | correspondence only |
 
+Judge-only strengthening of "rewrites only expected outputs" (no theorem beyond `updateEntry_spec`): clause `passing-changed` — a test
+that passes as written, or whose expectation the update must keep, or that a filtered update carries over, reads back with the SAME
+expectation (it is only re-formatted).  This found the open defect C20-format-sexp-same-quote (`(MISSING """)`; `Fixes.sameQuote`).
+
 How "well-formed" is applied to the REAL files (judge, `Judge.lean`): clause `read-differs` (unguarded) — the real reader returns
 the tests that `parseFile` delimits; all other clauses are judged when `canonB` holds: the file's tests, with the expectations a
 correct update writes, written in canonical form read back (by `parseFile`) with the same names, attribute text, inputs, delimiter
@@ -603,7 +607,7 @@ theorem readback (fx : Fixes) (c : Correction) (x sepf : Str) (hc : c.output = f
     normalizeSexp (outSection c sepf) = x := by
   rcases hx with rfl | hcls
   · have h0 : formatSexp fx [] = [] := by
-      have : ∀ qr, fmtLoop qr 3 { rest := [] } 0 false [] = [] := by intro qr; cases qr <;> decide
+      have : ∀ qr, fmtLoop qr 3 { rest := [] } 0 false [] = [] := by intro qr; rcases qr with ⟨a, b⟩; cases a <;> cases b <;> decide
       simp [formatSexp, this]
     rw [outSection, hc, h0]
     rcases hsepf with rfl | rfl <;> decide
@@ -995,7 +999,7 @@ example : (parseFile [] fEx).map (·.output) = [['(', 'x', ')']] ∧
 
 /-- Non-vacuity of `update_idempotent_partial`: on the concrete file `fEx` with all repairs on, the hypotheses
 that are decidable hold (`actOKb`, canonical flags, empty leading text) and the second update is the identity. -/
-def fxAll : Fixes := { keepUnrun := true, oneCorrection := true, keepSuffixPreamble := true, quoteReset := true, keepCstFiltered := true }
+def fxAll : Fixes := { keepUnrun := true, oneCorrection := true, keepSuffixPreamble := true, quoteReset := true, keepCstFiltered := true, sameQuote := true }
 example : actOKb okActual = true ∧ preamble [] fEx = [] ∧
     (parseFile [] fEx).all (fun e => decide (e.attrs = flagsOf [] e.name e.attrsStr)) = true ∧
     updateFile fxAll [] okOracle fEx ≠ fEx ∧
